@@ -236,6 +236,35 @@ theorem createIndex_row_sound (new : List Index) (removed : List Nat) (other : T
   | createIndex _ _ => simp [touches]
   | reserve _ => simp [touches]
 
+theorem contains_append_or (a b : List Nat) (f : Nat) :
+    ((a ++ b).contains f || b.contains f) = (a.contains f || b.contains f) := by
+  cases ha : a.contains f <;> cases hb : b.contains f <;> simp_all
+
+/-- recording the rebased transaction does not change what was built -/
+theorem build_rebase (m : Manifest) (t : Txn) : build m (rebase m t) = build m t := by
+  cases t with
+  | delete aff removed =>
+    simp only [rebase, build]
+    split
+    · rfl
+    · congr 2
+      funext f
+      rw [contains_append_or]
+  | update aff removed patches news fm hit cm =>
+    simp only [rebase, build]
+    split
+    · rfl
+    · congr 3
+      funext f
+      rw [contains_append_or]
+  | append _ => rfl
+  | createIndex _ _ => rfl
+  | dataRepl _ _ => rfl
+  | reserve _ => rfl
+
+theorem declared_rebase (m : Manifest) (t : Txn) (h : Declared t) : Declared (rebase m t) := by
+  cases t <;> exact h
+
 theorem commit_inv (hist hist' : List Ver) (lag : Nat) (t : Txn) (hI : Inv hist)
     (hlag : lag < hist.length) (hBuilt : Built (hist[lag]).m t) (hS : safeTxn hist lag t = true)
     (h : commit hist lag t = .ok hist') : Inv hist' := by
@@ -287,11 +316,11 @@ theorem commit_inv (hist hist' : List Ver) (lag : Nat) (t : Txn) (hI : Inv hist)
             intro f' p' heq
             cases heq
             simpa [safeTxn] using hS
-        refine ⟨Chain.step ⟨m', t⟩ v rest hch hb, ?_⟩
+        refine ⟨Chain.step ⟨m', rebase v.m t⟩ v rest hch (by rw [build_rebase]; exact hb), ?_⟩
         intro u hu
         simp only [List.mem_cons] at hu
         rcases hu with rfl | hu
-        · exact ⟨key.1, key.2, hDt⟩
+        · exact ⟨key.1, key.2, declared_rebase v.m t hDt⟩
         · exact hall u (by simpa using hu)
 
 end LanceModel.C24
